@@ -285,6 +285,19 @@ def limit():
 
 
 def run_harness(prop, name, timeout, logdir, playback=False):
+    """One harness; a run that ends in an out-of-memory / engine error without a verdict is
+    repeated once (kani-driver occasionally fails to allocate under the address-space cap
+    while reading CBMC's output; the second attempt normally goes through)."""
+    res = run_harness_once(prop, name, timeout, logdir, playback)
+    if not playback and not res["timed_out"] and (res["oom"] or res["status"] is None):
+        first = res
+        res = run_harness_once(prop, name, timeout, logdir, playback)
+        res["retried_after"] = "out of memory" if first["oom"] else "engine error"
+        res["wall_s"] = round(res["wall_s"] + first["wall_s"], 1)
+    return res
+
+
+def run_harness_once(prop, name, timeout, logdir, playback=False):
     cmd = ["cargo", "kani", "--features", prop.lower(), "-Z", "stubbing",
            "--target-dir", target_dir(prop, name), "--harness", name, "--exact"]
     if playback:
